@@ -4,7 +4,7 @@
 SEEDROOT=${SEEDROOT:-/tmp/seed}; ID=$1; N=$2; OUT=$SEEDROOT/$ID-out; WT=/var/tmp/confirm-$ID-$N; CWD=/var/tmp/confirm-cwd-$ID-$N
 rm -rf $CWD; mkdir -p $CWD
 git -C /repo worktree add -q $WT HEAD || exit 2
-run_demo() { (cd $CWD && sed "s#$SEEDROOT/$ID/#$WT/#g; s#$SEEDROOT/$ID\b#$WT#g" $OUT/demo$N.py > $CWD/demo.py && if head -8 $CWD/demo.py | grep -q "twisted.trial"; then RUN="/venv/bin/python -B -m twisted.trial"; elif head -5 $CWD/demo.py | grep -q pytest; then RUN="/venv/bin/python -B -m pytest -q -p no:cacheprovider --timeout=600"; else RUN="/venv/bin/python -B"; fi; PYTHONPATH=$WT/src:/var/tmp/stubs timeout 900 $RUN $CWD/demo.py > $CWD/demo.log 2>&1; echo $?); }
+run_demo() { (cd $CWD && sed "s#$SEEDROOT/$ID/#$WT/#g; s#$SEEDROOT/$ID\b#$WT#g" $OUT/demo$N.py > $CWD/demo$N.py && ln -sf demo$N.py $CWD/demo.py && if head -8 $CWD/demo$N.py | grep -q "twisted.trial"; then RUN="/venv/bin/python -B -m twisted.trial"; elif head -5 $CWD/demo$N.py | grep -q pytest; then RUN="/venv/bin/python -B -m pytest -q -p no:cacheprovider --timeout=600"; else RUN="/venv/bin/python -B"; fi; PYTHONPATH=$WT/src:/var/tmp/stubs timeout 900 $RUN $CWD/demo$N.py > $CWD/demo.log 2>&1; echo $?); }
 R1=$(run_demo)
 (cd $WT && git apply $OUT/change$N.diff) || { echo "PATCH DOES NOT APPLY"; git -C /repo worktree remove --force $WT; exit 2; }
 R2=$(run_demo)
